@@ -17,8 +17,9 @@ Per-run ties:
      is sometimes released on purpose to test the rule (the timeout is swallowed and the statement retried).
 Direct oracle (D, E): every call returns the tree of the uncached parse, none raises, the database exists and
 passes `PRAGMA integrity_check` afterwards, every stored row unpickles to the fresh tree of its text.
- (E) free-running stress: N forked processes released by a barrier on a fresh folder / an existing database /
-     a database with a wrong layout.
+ (E) free-running stress: N worker processes, and N threads of this process, released by a barrier on a fresh
+     folder / an existing database / a database that already holds the texts (hits, always_update_last_hit) /
+     a database with a wrong layout; optionally a second simultaneous call that keeps `initialized_dbs`.
 """
 import json
 import multiprocessing
@@ -36,7 +37,7 @@ from harness.gen import a01
 
 DRIVERS = ["drv_c02"]
 RULE = ("cases: (B) one random statement sequence over 2-3 raw SQLite connections; (C) one recorded parse trace; "
-        "(D) one scheduled run of 2-3 threads through the real parse(); (E) one stress round of N processes. "
+        "(D) one scheduled run of 2-3 threads through the real parse(); (E) one stress round of N processes / N free-running threads. "
         "non-trivial = (B) at least one call did not simply succeed (waited or failed), (C) trace with >= 3 transactions, "
         "(D) at least two connections were inside a transaction at the same time or a call waited, (E) N >= 4; "
         "distinct = distinct case description")
@@ -138,6 +139,12 @@ def run_lock_case(ctx, case, drv, attempt=0):
     c0.close()
     n = case["n"]
     conns = [sqlite3.connect(path, isolation_level=None, timeout=T_BUSY) for _ in range(n)]
+    for c in conns:
+        # load the schema now: SQLite's default busy handler stays disarmed (nBusy = -1) after a timeout until the
+        # next statement *executes*, so a statement that first has to load the schema (a lock request during
+        # prepare) right after a timed-out one fails at once — an artefact of raw connections that never occurs in
+        # parse(), whose first statement follows no failure
+        c.execute(SQL_OF["read"]).fetchall()
     model = [{"lock": "none", "inTxn": False} for _ in range(n)]
     events, bad = [], None
     try:
@@ -546,6 +553,10 @@ def scheduled_run(ctx, case, drv, pool):
                 ctx.disagreement("lock.deadlock", case, "every pending statement waits in the model", {"pending": pend, "locks": [m["lock"] for m in model]})
                 stop = "deadlock"
                 continue
+            elif case.get("policy") == "roundrobin":
+                # strict alternation between the connections that can move: both read before either writes
+                last = choices[-1] if choices else -1
+                pick = min(enabled, key=lambda t: ((t - last - 1) % n))
             elif waiting and rng.random() < 0.06:
                 pick = rng.choice(waiting)
             else:
@@ -761,6 +772,54 @@ def stress_round(ctx, case, pool, workers):
     return not bad
 
 
+def thread_round(ctx, case, pool):
+    """case: {"kind":"threads","state":…, "n":N, "texts":[…], "second":[…]|None, "update":bool}: N free-running threads
+    of this process (one shared `parse.initialized_dbs`, forgotten before the first phase) released by a barrier."""
+    folder = tempfile.mkdtemp(prefix="c02-threads-", dir=scratch_base(ctx))
+    make_state(folder, case["state"], pool["texts"])
+    n = case["n"]
+    bad = False
+    with Env() as env:
+        for texts in [case["texts"]] + ([case["second"]] if case.get("second") else []):
+            barrier = threading.Barrier(n)
+            results = [None] * n
+
+            def work(i, txt):
+                try:
+                    barrier.wait(timeout=60)
+                    t = env.parser.parse(txt, model_cache_folder=Path(folder), always_update_last_hit=bool(case.get("update")))
+                    results[i] = ("ok", a01.canon_key(t))
+                except BaseException as e:  # noqa
+                    results[i] = ("exc", "%s: %s" % (type(e).__name__, e))
+            ths = [threading.Thread(target=work, args=(i, pool["texts"][texts[i]]), daemon=True) for i in range(n)]
+            for t in ths:
+                t.start()
+            for t in ths:
+                t.join(timeout=120)
+            for i, r in enumerate(results):
+                if r is None:
+                    r = ("exc", "Timeout: thread did not finish within 120 s")
+                if r[0] == "exc":
+                    ctx.violation("a concurrent parse() raised %s" % r[1].split(":")[0], case,
+                                  expected="tree of the uncached parse", observed={"thread": i, "error": r[1]}, kind="threads")
+                    bad = True
+                    break
+                if r[1] != pool["keys"][texts[i]]:
+                    ctx.violation("a concurrent parse() returned a wrong result", case, expected=pool["keys"][texts[i]],
+                                  observed=r[1], kind="threads")
+                    bad = True
+                    break
+            if bad:
+                break
+            msg = db_oracle(folder, pool["texts"], pool["keys"])
+            if msg:
+                ctx.violation(msg, case, kind="threads")
+                bad = True
+                break
+    shutil.rmtree(folder, ignore_errors=True)
+    return not bad
+
+
 # ---- run ---------------------------------------------------------------------------------------------------
 def make_pool(rng, n=4):
     from pymoca import parser
@@ -856,25 +915,55 @@ def _run_ties(ctx, drv, quick, rng, pool, workers):
 
     mark("lock-rules")
     # (D) scheduled runs through the real parse()
-    nsched = 16 if quick else 600
-    for k in range(nsched):
+    nsched = 12 if quick else 600
+    fixed = []
+    for state, upd, pre in [("fresh", False, False), ("wronglayout", False, False), ("existing", False, False),
+                            ("cached", True, False), ("cached", True, True), ("cached", False, True)]:
+        fixed.append({"kind": "schedule", "state": state, "texts": [0, 0], "preinit": pre, "update": upd,
+                      "policy": "roundrobin", "seed": 0, "pool": pool["texts"]})
+    fixed.append({"kind": "schedule", "state": "fresh", "texts": [0, 1, 0], "preinit": False, "update": False,
+                  "policy": "roundrobin", "seed": 0, "pool": pool["texts"]})
+    for k in range(len(fixed) + nsched):
         if ctx.time_left() < (10 if quick else 120):
             ctx.notes.append("scheduled runs stopped by the time budget after %d" % k)
             break
-        n = rng.choice([2, 2, 3])
-        same = rng.random() < 0.5
-        case = {"kind": "schedule", "state": rng.choice(["fresh", "fresh", "existing", "wronglayout", "cached"]),
-                "texts": [0] * n if same else [rng.randrange(3) for _ in range(n)],
-                "preinit": False, "update": False, "seed": rng.randrange(1 << 30), "pool": pool["texts"]}
-        if case["state"] in ("existing", "cached") and rng.random() < 0.4:
-            case["preinit"] = True
-        if case["state"] == "cached":
-            case["update"] = rng.random() < 0.8
+        if k < len(fixed):
+            case = fixed[k]
+        else:
+            n = rng.choice([2, 2, 3])
+            same = rng.random() < 0.5
+            case = {"kind": "schedule", "state": rng.choice(["fresh", "fresh", "existing", "wronglayout", "cached"]),
+                    "texts": [0] * n if same else [rng.randrange(3) for _ in range(n)],
+                    "preinit": False, "update": False, "policy": rng.choice(["random", "random", "roundrobin"]),
+                    "seed": rng.randrange(1 << 30), "pool": pool["texts"]}
+            if case["state"] in ("existing", "cached") and rng.random() < 0.4:
+                case["preinit"] = True
+            if case["state"] == "cached":
+                case["update"] = rng.random() < 0.8
         nt, choices = scheduled_run(ctx, case, drv, pool)
         ctx.case({k2: v for k2, v in case.items() if k2 != "pool"}, nontrivial=nt)
-        ctx.count("sched-" + case["state"] + ("-preinit" if case["preinit"] else "") + ("-update" if case["update"] else ""))
+        ctx.count("sched-" + case["state"] + ("-preinit" if case["preinit"] else "") + ("-update" if case["update"] else "")
+                  + ("-rr" if case.get("policy") == "roundrobin" else ""))
 
     mark("scheduled")
+    # (E') free-running threads of this process
+    tplan = ([("fresh", 4)] * 4 + [("fresh", 8)] * 3 + [("wronglayout", 8)] * 2 + [("cached", 8)] * 3 + [("existing", 8)] * 2) if quick else \
+        ([("fresh", 4)] * 20 + [("fresh", 8)] * 40 + [("wronglayout", 8)] * 30 + [("cached", 8)] * 30 + [("existing", 8)] * 30)
+    for r, (state, n) in enumerate(tplan):
+        if ctx.time_left() < (8 if quick else 100):
+            ctx.notes.append("thread stress stopped by the time budget after %d rounds" % r)
+            break
+        mode = r % 3
+        texts = [0] * n if mode == 0 else ([i % 3 for i in range(n)] if mode == 1 else [rng.randrange(3) for _ in range(n)])
+        case = {"kind": "threads", "state": state, "n": n, "texts": texts,
+                "second": [rng.randrange(3) for _ in range(n)] if r % 3 == 2 else None, "update": state == "cached",
+                "pool": pool["texts"], "round": r}
+        ok = thread_round(ctx, case, pool)
+        ctx.case({k2: v for k2, v in case.items() if k2 != "pool"}, nontrivial=n >= 4)
+        ctx.count("threads-%s-%d%s" % (state, n, "-twice" if case["second"] else ""))
+        if not ok:
+            break
+    mark("threads")
     workers.ready()
     mark("worker-warmup-wait")
     # (E) stress
@@ -906,6 +995,11 @@ def run_case(ctx, c, drv, workers=None):
             check_lock_case(ctx, c, drv)
     elif c["kind"] == "schedule":
         scheduled_run(ctx, c, drv, pool_of(c["pool"]))
+    elif c["kind"] == "threads":
+        pool = pool_of(c["pool"])
+        for _ in range(12):
+            if not thread_round(ctx, c, pool):
+                break
     elif c["kind"] == "stress":
         pool = pool_of(c["pool"])
         own = workers is None or workers.n < c["n"]
@@ -952,6 +1046,10 @@ def search(ctx):
                         "second": [i % 3 for i in range(n)] if r % 5 == 4 else None, "pool": pool["texts"], "round": r}
                 stress_round(ctx, case, pool, workers)
                 ctx.count("search-stress")
+                if not ctx.violations:
+                    thread_round(ctx, dict(case, kind="threads", n=8, texts=case["texts"][:8],
+                                           second=case["second"][:8] if case["second"] else None), pool)
+                    ctx.count("search-threads")
                 if not ctx.violations and r % 2 == 0:
                     k = ctx.rng.choice([2, 3])
                     case = {"kind": "schedule", "state": ctx.rng.choice(["fresh", "existing", "wronglayout"]), "texts": [0] * k,
